@@ -479,12 +479,22 @@ def w2_build_overlap(col, rng, cidx, jobref):
     args = [Sym("arg", cidx, "b")]
     ref = S.run_reference(shared_sp, args, shared_plain, env_values=dict(shared_setup))
     old = cfg.TAWAZI_EXECNODE_OUTSIDE_DAG_BEHAVIOR
+    # a call with the description-only keyword `twz_active`: whatever it does when nobody is building (a usage error on the pinned
+    # tree), it does the same while another thread is paused inside a describing function
+    kw_call = None if shared_sp["is_async"] else (lambda: shared(*args, twz_active=False))
+    kw_before = None
+    if kw_call is not None:
+        r0_ = probes.run_op("call_with_description_only_keyword_before_the_build", kw_call)
+        kw_before = (r0_[0], type(r0_[1]).__name__ if r0_[0] == "exc" else None)
 
     def thread_b():
         ev_in.wait(20)
         B.Settings.controlled = False
         call_shared = (lambda: asyncio.run(_await(shared, args))) if shared_sp["is_async"] else (lambda: shared(*args))
         out["B_call"] = run_op_id("call_shared_while_other_thread_builds", call_shared, "b%d" % cidx)
+        if kw_call is not None:
+            rk_ = run_op_id("call_with_description_only_keyword_while_other_thread_builds", kw_call, "bk%d" % cidx)
+            out["B_kw"] = (rk_[0], type(rk_[1]).__name__ if rk_[0] == "exc" else None)
         cfg.TAWAZI_EXECNODE_OUTSIDE_DAG_BEHAVIOR = behaviour
         try:
             # the warning recorder was installed by the MAIN thread before any thread started (warning filters are
@@ -530,6 +540,11 @@ def w2_build_overlap(col, rng, cidx, jobref):
         elif not same(ref[1].result, r[1]):
             col.violation(pid, "dag_call_during_other_threads_build_returned_wrong_value", dict(
                 expected=short(ref[1].result, 300), got=short(r[1], 300), shared=S.render(shared_sp)), rp)
+    if kw_before is not None and "B_kw" in out:
+        col.counters["c16_description_only_keyword_calls_during_a_build"] += 1
+        if out["B_kw"] != kw_before:
+            col.violation(pid, "call_with_description_only_keyword_behaves_differently_during_other_threads_build", dict(
+                alone=kw_before, during_the_build=out["B_kw"], shared=S.render(shared_sp)), rp)
     # B: a decorated function outside any DAG behaves as configured
     f = out["B_fn"]
     col.counters["c16_outside_calls_%s" % behaviour.value] += 1
